@@ -36,6 +36,9 @@ type C07Cfg struct {
 	// AutoCA: no CA files are configured: the proxy generates its signing CA at start and publishes it; clients trust
 	// that certificate for as long as the proxy runs
 	AutoCA bool `json:"auto_ca,omitempty"`
+	// TLSListener: the proxy itself is reached over TLS (an HTTPS proxy with a certificate of its own); the intercepted
+	// session inside the tunnel is another matter and gets a leaf for the host asked for, as on a plain listener
+	TLSListener bool `json:"tls_listener,omitempty"`
 }
 
 type C07Conn struct {
@@ -113,6 +116,7 @@ func genC07(t *rapid.T) C07Case {
 	} else {
 		c.Cfg.AutoCA = rapid.IntRange(0, 7).Draw(t, "autoca") == 0
 	}
+	c.Cfg.TLSListener = !c.Cfg.AutoCA && rapid.IntRange(0, 3).Draw(t, "tlslistener") == 0
 	c.Rounds = 1
 	if rapid.IntRange(0, 3).Draw(t, "rounds") == 0 || c.Cfg.Short {
 		c.Rounds = 2
@@ -205,7 +209,7 @@ func (e *c07Env) proxy(cfg C07Cfg) (*ProxyInst, error) {
 			mc.CacheTTL = time.Hour
 		}
 	}
-	o := ProxyOpts{CA: e.ca, RootCAs: e.ca.Pool, MITM: true, MITMConfig: mc, Insecure: cfg.Insecure, DialTimeout: 3 * time.Second, AutoCA: cfg.AutoCA}
+	o := ProxyOpts{CA: e.ca, RootCAs: e.ca.Pool, MITM: true, MITMConfig: mc, Insecure: cfg.Insecure, DialTimeout: 3 * time.Second, AutoCA: cfg.AutoCA, ListenerTLS: cfg.TLSListener}
 	if cfg.Domains == "filter" {
 		o.MITMDomains = c07Filter
 	}
@@ -298,8 +302,16 @@ func (e *c07Env) oneConn(px *ProxyInst, cfg C07Cfg, x C07Conn, vid string) (fail
 	}
 	defer tc.Close()
 	tc.SetDeadline(time.Now().Add(15 * time.Second))
-	fmt.Fprintf(tc, "CONNECT %s HTTP/1.1\r\nHost: %s\r\n\r\n", authority, authority)
-	br := bufio.NewReader(tc)
+	var pconn net.Conn = tc
+	if cfg.TLSListener {
+		pt := tls.Client(tc, &tls.Config{RootCAs: e.ca.Pool, ServerName: "127.0.0.1"})
+		if err := pt.Handshake(); err != nil {
+			return []vstat.Failure{vstat.Failf("C07:harness", "TLS to the proxy's own listener: %v", err)}
+		}
+		pconn = pt
+	}
+	fmt.Fprintf(pconn, "CONNECT %s HTTP/1.1\r\nHost: %s\r\n\r\n", authority, authority)
+	br := bufio.NewReader(pconn)
 	m, err := ReadResponse(br, "CONNECT")
 	if err != nil || m.Status != 200 {
 		return []vstat.Failure{vstat.Failf(key("connect"), "CONNECT %s: %v %+v (%s)", authority, err, m, desc)}
@@ -320,7 +332,7 @@ func (e *c07Env) oneConn(px *ProxyInst, cfg C07Cfg, x C07Conn, vid string) (fail
 	}
 	var presented []*x509.Certificate
 	t0 := time.Now()
-	tconn := tls.Client(&bufferedConn{Conn: tc, r: br}, &tls.Config{InsecureSkipVerify: true, ServerName: sni, //nolint:gosec // verified below by the oracle
+	tconn := tls.Client(&bufferedConn{Conn: pconn, r: br}, &tls.Config{InsecureSkipVerify: true, ServerName: sni, //nolint:gosec // verified below by the oracle
 		VerifyConnection: func(cs tls.ConnectionState) error { presented = cs.PeerCertificates; return nil }})
 	herr := tconn.Handshake()
 	t1 := time.Now()
@@ -420,6 +432,9 @@ func classifyC07(c C07Case) (bool, string, []string) {
 	cls := []string{fmt.Sprintf("cache=%d", c.Cfg.CacheSize), "domains-" + c.Cfg.Domains, fmt.Sprintf("conns=%d", len(c.Conns)), "upstream-" + c.Cfg.Upstream}
 	if c.Cfg.AutoCA {
 		cls = append(cls, "generated-ca")
+	}
+	if c.Cfg.TLSListener {
+		cls = append(cls, "https-proxy-listener")
 	}
 	if c.Cfg.Short {
 		cls = append(cls, "validity-1s")
